@@ -342,7 +342,21 @@ def _roundtrip(run, PV):
             if key not in reads:
                 continue
             dec, fld = reads[key]
-            enc = _inline_props(run, ci, vexpr)
+            # a value prepared in a local (`k = self.key.to_string(..)` ... `"key": k.hex()`) is the expression behind it
+            vexp_ = vexpr
+            if any(isinstance(x, ast.Name) and x.id != "self" for x in ast.walk(vexpr)):
+                for dn_ in g.nodes_of(vexpr):
+                    try:
+                        xs_ = PV.expand(td, ci, vexpr, dn_)
+                    except AnalysisError:
+                        xs_ = set()
+                    if len(xs_) == 1:
+                        try:
+                            vexp_ = ast.parse(next(iter(xs_)), mode="eval").body
+                        except SyntaxError:
+                            pass
+                    break
+            enc = _inline_props(run, ci, vexp_)
             ok = False
             for dpat, epat in INVERSE:
                 if dec == dpat and _strip(enc) == _strip(epat.replace("F", f"self.{fld}")):
